@@ -18,6 +18,8 @@ def layouts(thorough):
         ('covering-and-empty', [dict(window=(None, None), tests=lite), dict(window=(t(2), t(2)), tests=lite)]),
         ('empty-then-covering', [dict(window=(t(2), t(2)), tests=lite), dict(window=(t(0), t(9)), tests=lite)]),
         ('three-contexts', [dict(window=(None, t(1)), tests=lite), dict(window=(t(1), t(4)), tests=lite), dict(window=(t(4), None), tests=lite)]),
+        # stream b is configured only in a context whose window is empty: it still gets its (entirely uncovered) result
+        ('empty-window-only-for-b', [dict(window=(t(0), t(3)), tests={'a': ['gross', 'spike']}), dict(window=(t(2), t(2)), tests={'b': ['flat']})]),
     ]
     return out
 
@@ -53,9 +55,13 @@ def run(ck):
     it = r.interp
     results_mod = it.module('ioos_qc.results')
     collect = results_mod.globals['collect_results']
-    tables = [('all-axes', Table(5, missing={'a': {2}})), ('time-only', Table(5, missing={'a': {2}}, with_axes=('time',)))]
+    tables = [('all-axes', Table(5, missing={'a': {2}})), ('time-only', Table(5, missing={'a': {2}}, with_axes=('time',))),
+              ('unsorted-times', Table(5, missing={'a': {2}}, time_order=[2, 0, 4, 1, 3]))]
     for tname, table in tables:
         for lname, contexts in layouts(thorough):
+            if tname == 'unsorted-times':
+                # flat_line_test derives its window from the median time step, which is meaningless for unsorted rows
+                contexts = [dict(c, tests={sid: ['valid' if k == 'flat' else k for k in keys] for sid, keys in c['tests'].items()}) for c in contexts]
             src = make_config_source(contexts)
             expected = expected_direct(r, table, contexts)
             for fe in ('numpy', 'pandas'):
